@@ -146,7 +146,10 @@ def bounded(ctx):
                     while ntext is None:
                         nt = ba.clean(rng, newlen, e)
                         ntext = ba.build_module(e, ovs[j], nt, ovs[j + 1], rng, backbone=rng.randint(3, 15))
-                    repl = Mod(CircularRecord(Seq(ba.rotate(ntext, rng.randrange(len(ntext)))), id="r"))
+                    # the replacement's record identifier is free: its own, that of another module, of the vector, or
+                    # Biopython's default -- the segment it contributes is decided by its overhangs only
+                    rid = ("r", "m%d" % ((j + 1) % chain_len), "v", "<unknown id>")[(j + newlen) % 4]
+                    repl = Mod(CircularRecord(Seq(ba.rotate(ntext, rng.randrange(len(ntext)))), id=rid))
                     ms = list(mods)
                     ms[j] = repl
                     rng.shuffle(ms)
